@@ -6,7 +6,8 @@ open RedunModel RedunModel.ValueHash
    (sets / frozensets list their elements in the iteration order observed in the process that hashed the value)
    request:  hash v   ->   V:<layout>          pre-image under tag "Value"
                            S:(<sorted items>)  pre-image under tag "Value.set"
-                           !TypeError | unspecified
+                           S:(<items by element digest>) when sorted() raises TypeError (model digest, see `digest`)
+                           unspecified
 -/
 mutual
   partial def toV : Sexp → Option V
@@ -69,14 +70,21 @@ partial def render : V → String
     | some kvs => "(" ++ " ".intercalate ("D" :: kvs.map (fun kv => "(" ++ render kv.1 ++ " " ++ render kv.2 ++ ")")) ++ ")"
     | none => "ill-formed-dict"
 
+def renderPre : Pre → String
+  | .value w => "V:" ++ render w
+  | .valueSet l => "S:(" ++ " ".intercalate (l.map render) ++ ")"
+
+/-- A concrete injective digest for running the model: the rendering read as a number.  The real digests order
+the elements differently; the tie only uses that the order is a function of the set of element pre-images. -/
+def digest (p : Pre) : Nat := (renderPre p).toList.foldl (fun n c => n * 1114112 + c.toNat + 1) 0
+
 def step (_ : Unit) (line : String) : Unit × String :=
   match Sexp.parseLine line with
   | some [.atom "hash", x] =>
     match toV x with
     | some v =>
-      match getHash v with
-      | .ok (.value w) => ((), "V:" ++ render w)
-      | .ok (.valueSet l) => ((), "S:(" ++ " ".intercalate (l.map render) ++ ")")
+      match getHash digest v with
+      | .ok p => ((), renderPre p)
       | .typeError => ((), "!TypeError")
       | .unspecified => ((), "unspecified")
     | none => ((), "bad-value")
